@@ -633,15 +633,167 @@ func isMarkLoop(c *core.Ctx, pk *packages.Package, li loopInfo) bool {
 		return false
 	}
 	found := false
-	ast.Inspect(li.loop.Body, func(n ast.Node) bool {
-		if cl, ok := n.(*ast.CompositeLit); ok {
-			if tv, ok := pk.TypesInfo.Types[cl]; ok && isNamedType(tv.Type, c.P.Module+"/types", "Manifest") {
-				found = true
+	declares := func(body ast.Node) {
+		ast.Inspect(body, func(n ast.Node) bool {
+			if cl, ok := n.(*ast.CompositeLit); ok {
+				if tv, ok := pk.TypesInfo.Types[cl]; ok && isNamedType(tv.Type, c.P.Module+"/types", "Manifest") {
+					found = true
+				}
+			}
+			return true
+		})
+	}
+	declares(li.loop.Body)
+	if !found {
+		// … or hands the decoding to a function of the package that does (children, blobs, ok := manifestRefs(rdr, mt))
+		ast.Inspect(li.loop.Body, func(n ast.Node) bool {
+			if call, ok := n.(*ast.CallExpr); ok {
+				if hd := pkgFuncDecl(pk, call); hd != nil && hd.Body != nil {
+					declares(hd.Body)
+				}
+			}
+			return true
+		})
+	}
+	return found
+}
+
+// pkgFuncDecl: the declaration of the function of this package a call expression calls (resolved through the types).
+func pkgFuncDecl(pk *packages.Package, call *ast.CallExpr) *ast.FuncDecl {
+	f, ok := typeutilCallee(pk, call).(*types.Func)
+	if !ok || f.Pkg() != pk.Types {
+		return nil
+	}
+	for _, fd := range funcDecls(pk) {
+		if pk.TypesInfo.Defs[fd.Name] == f {
+			return fd
+		}
+	}
+	return nil
+}
+
+// helperFieldSources: for a decoding helper of the package, which descriptor fields of the manifest structs reach
+// which of its results: a result that is the field itself (return man.Manifests, …), or a local list the helper
+// fills from the field — append(L, X.f.Digest) for a single descriptor, append(L, v…) inside `for … v := range X.f`.
+// Result index → set of "Type.Field".
+func helperFieldSources(pk *packages.Package, typesPath string, hd *ast.FuncDecl) map[int]map[string]bool {
+	out := map[int]map[string]bool{}
+	add := func(i int, k string) {
+		if out[i] == nil {
+			out[i] = map[string]bool{}
+		}
+		out[i][k] = true
+	}
+	// X.f with X of a manifest struct type and f a (list of) descriptor(s)
+	fieldOf := func(e ast.Expr) (string, bool) {
+		se, ok := ast.Unparen(e).(*ast.SelectorExpr)
+		if !ok {
+			return "", false
+		}
+		tv, ok := pk.TypesInfo.Types[se.X]
+		if !ok {
+			return "", false
+		}
+		for _, tn := range []string{"Manifest", "Index"} {
+			if isNamedType(tv.Type, typesPath, tn) {
+				return tn + "." + se.Sel.Name, true
+			}
+		}
+		return "", false
+	}
+	// the fields a local list is filled from
+	listSources := func(name string) []string {
+		var srcs []string
+		var visit func(n ast.Node, ranged map[string]string)
+		visit = func(n ast.Node, ranged map[string]string) {
+			ast.Inspect(n, func(m ast.Node) bool {
+				switch x := m.(type) {
+				case *ast.RangeStmt:
+					if k, ok := fieldOf(x.X); ok && x.Value != nil && exprString(x.Value) != "_" {
+						inner := map[string]string{}
+						for a, b := range ranged {
+							inner[a] = b
+						}
+						inner[exprString(x.Value)] = k
+						visit(x.Body, inner)
+						return false
+					}
+				case *ast.AssignStmt:
+					if len(x.Lhs) != 1 || len(x.Rhs) != 1 || exprString(x.Lhs[0]) != name {
+						return true
+					}
+					if k, ok := fieldOf(x.Rhs[0]); ok {
+						srcs = append(srcs, k)
+						return true
+					}
+					call, ok := x.Rhs[0].(*ast.CallExpr)
+					if !ok || exprString(call.Fun) != "append" || len(call.Args) < 2 {
+						return true
+					}
+					for _, a := range call.Args[1:] {
+						// X.f.Digest / X.f
+						e := ast.Unparen(a)
+						if se, ok := e.(*ast.SelectorExpr); ok {
+							if k, ok := fieldOf(se.X); ok {
+								srcs = append(srcs, k)
+								continue
+							}
+							if id, ok := se.X.(*ast.Ident); ok && ranged[id.Name] != "" {
+								srcs = append(srcs, ranged[id.Name])
+								continue
+							}
+						}
+						if k, ok := fieldOf(e); ok {
+							srcs = append(srcs, k)
+							continue
+						}
+						if id, ok := e.(*ast.Ident); ok && ranged[id.Name] != "" {
+							srcs = append(srcs, ranged[id.Name])
+						}
+					}
+				}
+				return true
+			})
+		}
+		visit(hd.Body, map[string]string{})
+		return srcs
+	}
+	var named []string
+	if hd.Type.Results != nil {
+		for _, f := range hd.Type.Results.List {
+			for _, nm := range f.Names {
+				named = append(named, nm.Name)
+			}
+		}
+	}
+	ast.Inspect(hd.Body, func(n ast.Node) bool {
+		if _, isLit := n.(*ast.FuncLit); isLit {
+			return false
+		}
+		rs, ok := n.(*ast.ReturnStmt)
+		if !ok {
+			return true
+		}
+		results := rs.Results
+		if len(results) == 0 {
+			for _, nm := range named {
+				results = append(results, ast.NewIdent(nm))
+			}
+		}
+		for i, e := range results {
+			if k, ok := fieldOf(e); ok {
+				add(i, k)
+				continue
+			}
+			if id, ok := ast.Unparen(e).(*ast.Ident); ok && id.Name != "nil" {
+				for _, k := range listSources(id.Name) {
+					add(i, k)
+				}
 			}
 		}
 		return true
 	})
-	return found
+	return out
 }
 
 // ---- SH-MARK-EXHAUSTIVE ----
@@ -668,6 +820,35 @@ func runMarkExhaustive(c *core.Ctx) {
 		c.Unresolved("mark-loop", "no worklist loop that expands image manifests found in the store package")
 		return
 	}
+	// lists a decoding helper hands back to the loop: local name → the fields they were filled from
+	derived := map[string]map[string]bool{}
+	ast.Inspect(mark.loop.Body, func(n ast.Node) bool {
+		as, ok := n.(*ast.AssignStmt)
+		if !ok || len(as.Rhs) != 1 {
+			return true
+		}
+		call, ok := as.Rhs[0].(*ast.CallExpr)
+		if !ok {
+			return true
+		}
+		hd := pkgFuncDecl(pk, call)
+		if hd == nil || hd.Body == nil {
+			return true
+		}
+		for i, srcs := range helperFieldSources(pk, r.TypesPath, hd) {
+			if i < len(as.Lhs) {
+				if nm := exprString(as.Lhs[i]); nm != "_" {
+					if derived[nm] == nil {
+						derived[nm] = map[string]bool{}
+					}
+					for k := range srcs {
+						derived[nm][k] = true
+					}
+				}
+			}
+		}
+		return true
+	})
 	tp := c.P.Pkg("types").Types
 	for _, tn := range []string{"Manifest", "Index"} {
 		named := lookupNamed(tp, tn)
@@ -743,6 +924,15 @@ func runMarkExhaustive(c *core.Ctx) {
 				}
 				switch x := n.(type) {
 				case *ast.RangeStmt:
+					// a list a decoding helper filled from the field (every element of it consumed)
+					if id, ok := x.X.(*ast.Ident); ok && derived[id.Name][tn+"."+f.Name()] {
+						if x.Value != nil && exprString(x.Value) != "_" && consumes(x.Body, exprString(x.Value)) {
+							covered = true
+						}
+						if x.Key != nil && exprString(x.Key) != "_" && consumes(x.Body, exprString(x.X)+"["+exprString(x.Key)+"]") {
+							covered = true
+						}
+					}
 					if many && isField(x.X) {
 						if x.Value != nil && exprString(x.Value) != "_" && consumes(x.Body, exprString(x.Value)) {
 							covered = true
